@@ -117,7 +117,7 @@ def build():
         "hooks": {"guard": GUARD,
                   "enable": "checks import torchtt from /repo's working tree (PYTHONPATH=/repo) with %s=1 in the environment; there is no build step" % GUARD,
                   "baseline_off_cmd": "cd /repo && env -u %s /venv/bin/python -m pytest -ra -q -p no:cacheprovider --timeout=900 --continue-on-collection-errors" % GUARD,
-                  "source_commits": ["7bfc5b2", "d5d7154", "d290e3c", "e461287", "da8579f", "f947bba"],
+                  "source_commits": ["7bfc5b2", "d5d7154", "d290e3c", "e461287", "da8579f", "f947bba", "4e46be4"],
                   "add_only": True},
         "engines": [{"name": "tlc+replay", "path": "/verif/bin/check",
                      "serves_properties": sorted(CHECKS),
